@@ -244,8 +244,8 @@ func (x *Exec) prelude() string {
 		"(vslice (v-ltid Int) (v-l Slice)) (vother (v-otid Int) (v-o Int)))))\n")
 	sb.WriteString("(define-fun tagOf ((v Val)) Int (ite ((_ is vnil) v) 0 (ite ((_ is vbool) v) (v-btid v) (ite ((_ is vint) v) (v-itid v) (ite ((_ is vuint) v) (v-utid v) " +
 		"(ite ((_ is vf64) v) (v-ftid v) (ite ((_ is vf32) v) (v-gtid v) (ite ((_ is vstr) v) (v-stid v) (ite ((_ is vptr) v) (v-ptid v) (ite ((_ is vslice) v) (v-ltid v) (v-otid v)))))))))))\n")
-	sb.WriteString("(declare-fun kindOfTid (Int) Int)\n")
-	sb.WriteString("(define-fun kindOf ((v Val)) Int (ite ((_ is vnil) v) 0 (kindOfTid (tagOf v))))\n")
+	sb.WriteString("(declare-fun kindOfTid (Int) " + I + ")\n")
+	sb.WriteString("(define-fun kindOf ((v Val)) " + I + " (ite ((_ is vnil) v) " + x.GoInt(0).Op + " (kindOfTid (tagOf v))))\n")
 	if !x.bv {
 		sb.WriteString("(define-fun go_quo ((a Int) (b Int)) Int (ite (>= a 0) (ite (> b 0) (div a b) (- (div a (- b)))) (ite (> b 0) (- (div (- a) b)) (div (- a) (- b)))))\n")
 		sb.WriteString("(define-fun go_rem ((a Int) (b Int)) Int (- a (* b (go_quo a b))))\n")
